@@ -70,7 +70,7 @@ theorem Keeps.after {α} {m : PM α} (h : Keeps m) {e : PErr} {c : Ctx} (hc : Hd
 
 theorem After.bind {α β} {m : PM α} {f : α → PM β} {e : PErr} {c : Ctx} (h : After e (run m c))
     (hk : ∀ a, Keeps (f a)) : After e (run (m >>= f) c) := by
-  rw [run_bind]
+  rw [prun_bind]
   rcases hr : run m c with ⟨r, c'⟩
   rw [hr] at h
   cases r with
@@ -126,17 +126,17 @@ theorem SimAt.bind {α β} {ms mc : PM α} {fs fc : α → PM β} {c : Ctx} (h1 
     | ok a =>
       have h3 := h2 a c1 hr hq.1
       unfold SimAt at h3 ⊢
-      rw [run_bind, run_bind, heq, hr]
+      rw [prun_bind, prun_bind, heq, hr]
       exact h3
     | error a =>
       refine .inl ?_
-      rw [run_bind, run_bind, heq, hr]
+      rw [prun_bind, prun_bind, heq, hr]
       dsimp only
       refine ⟨rfl, hq.1, ?_⟩
       have h3 := hq.2
       cases a <;> first | exact h3 | trivial
   · refine .inr ⟨e, cs, ?_, ha.bind hk⟩
-    rw [run_bind, hs]
+    rw [prun_bind, hs]
 
 /-- the simulation from every error-free context, together with `Keeps` for the collecting side
     (needed to continue a collecting run after the stop run has ended) -/
@@ -338,7 +338,7 @@ theorem parseBody_sim (n : Nat) : Sim (parseBody D T true n) (parseBody D T fals
   unfold GV.parseBody
   refine Sim.bind (Sim.modify _ fun _ => rfl) fun _ => Sim.bind (parseLoop_sim D T _ _) fun _ =>
     Sim.bind (runProd_sim T _ _) fun _ => ⟨fun c hc => SimAt.same ?_, fun e => ?_⟩
-  · rw [run_bind, run_get]
+  · rw [prun_bind, run_get]
     dsimp only
     rw [hc]
     simp only [List.isEmpty_nil, Bool.not_true, Bool.false_eq_true, if_false]
